@@ -33,11 +33,16 @@ extern uint32_t g_p;  /* ghost byte position */
 extern uint32_t g_b;  /* ghost bit position */
 extern uint32_t g_n;  /* ghost copy of a scalar argument */
 extern uint64_t g_d;  /* ghost copy of a scalar argument */
+extern uint64_t g_s0; /* ghost: first 64 bits of the logical input stream at entry (tied by == in requires;
+                         __CPROVER_old() does not accept compound expressions) */
+extern int64_t g_bits0; /* ghost: number of bits in the logical stream at entry */
+extern uint32_t g_q;  /* second ghost byte position (frame statements) */
+extern uint8_t w_q0;  /* ghost: value at position g_q at entry (snapshot taken by an E_ hook) */
 
 /* ---- little helpers (pure expressions) ---- */
 #define LOWBITS(x, n) ((n) >= 64 ? (uint64_t) (x) : ((n) <= 0 ? 0ULL : ((uint64_t) (x) & ((1ULL << (n)) - 1))))
-#define SHL64(x, n) ((n) >= 64 ? 0ULL : ((uint64_t) (x) << (n)))
-#define SHR64(x, n) ((n) >= 64 ? 0ULL : ((uint64_t) (x) >> (n)))
+#define SHL64(x, n) (((n) >= 64 || (n) < 0) ? 0ULL : ((uint64_t) (x) << (n)))
+#define SHR64(x, n) (((n) >= 64 || (n) < 0) ? 0ULL : ((uint64_t) (x) >> (n)))
 #define MIN2(a, b) ((a) < (b) ? (a) : (b))
 /* next (up to) eight unconsumed input bytes as a little-endian word, zero beyond avail_in */
 #define PEEKB(s, k) ((s)->avail_in > (k) ? ((uint64_t) (s)->next_in[k]) << (8 * (k)) : 0ULL)
@@ -77,7 +82,7 @@ extern uint64_t g_d;  /* ghost copy of a scalar argument */
  *     and the refill is maximal in the sense the readers rely on: L' >= 57 or no input is left. */
 #define C_inflate_in_load                                                                          \
         __CPROVER_requires(INF_FRESH_STATE(state) && INF_FRESH_IN(state))                          \
-        __CPROVER_requires(WF_inflate_bits(state))                                                 \
+        __CPROVER_requires(WF_inflate_bits(state) && g_s0 == STREAM64(state))                      \
         __CPROVER_assigns(state->read_in, state->read_in_length, state->next_in, state->avail_in)  \
         __CPROVER_ensures(WF_inflate_bits(state))                                                  \
         __CPROVER_ensures((__CPROVER_old(state->read_in_length) >= 64 ||                           \
@@ -98,28 +103,12 @@ extern uint64_t g_d;  /* ghost copy of a scalar argument */
         /* the logical stream is unchanged: its first L' bits are now all in read_in */            \
         __CPROVER_ensures(state->read_in_length >= 0 ==>                                           \
                           LOWBITS(state->read_in, state->read_in_length) ==                        \
-                                  LOWBITS(__CPROVER_old(STREAM64(state)), state->read_in_length))  \
+                                  LOWBITS(g_s0, state->read_in_length))  \
         /* maximal refill */                                                                       \
         __CPROVER_ensures(state->read_in_length >= 57 || state->avail_in == 0)
-#define L_inflate_in_load_1                                                                        \
-        __CPROVER_assigns(temp, state->read_in, state->read_in_length, state->next_in,             \
-                          state->avail_in)                                                         \
-        __CPROVER_loop_invariant(state->read_in_length >= 0 && state->read_in_length <= 64 &&      \
-                                 state->read_in_length % 8 == in_l0__ % 8 &&                       \
-                                 state->read_in_length >= in_l0__ &&                               \
-                                 state->avail_in <= in_a0__ &&                                     \
-                                 8 * (int64_t) (in_a0__ - state->avail_in) ==                      \
-                                         (int64_t) state->read_in_length - in_l0__ &&              \
-                                 state->next_in == in_p0__ + (in_a0__ - state->avail_in) &&        \
-                                 LOWBITS(state->read_in, state->read_in_length) ==                 \
-                                         LOWBITS(in_s0__, state->read_in_length) &&                \
-                                 WF_inflate_garbage(state))                                        \
-        __CPROVER_decreases(64 - state->read_in_length)
-#define E_inflate_in_load                                                                          \
-        int32_t in_l0__ = state->read_in_length;                                                   \
-        uint32_t in_a0__ = state->avail_in;                                                        \
-        uint8_t *in_p0__ = state->next_in;                                                         \
-        uint64_t in_s0__ = STREAM64(state);
+/* The byte-wise refill loop runs at most 8 times (57 is a constant of the code, WF gives L >= 0): it is
+ * unwound 9 times with an unwinding assertion, which is complete.  (A loop contract was tried: the
+ * invariant needs PEEK64 at a symbolic offset of a symbolic-size object and exhausts memory.) */
 #define H_inflate_in_load_1 VCANARY();
 
 /* inflate_in_read_bits_unsafe: takes bit_count bits off the accumulator, LSB first; the length may go
@@ -140,8 +129,10 @@ extern uint64_t g_d;  /* ghost copy of a scalar argument */
 #define C_inflate_in_read_bits                                                                     \
         __CPROVER_requires(INF_FRESH_STATE(state) && INF_FRESH_IN(state))                          \
         __CPROVER_requires(WF_inflate_bits(state) && bit_count <= 30 && g_n == bit_count)          \
+        __CPROVER_requires(g_s0 == STREAM64(state) && g_bits0 == STREAM_BITS(state))               \
         __CPROVER_assigns(state->read_in, state->read_in_length, state->next_in, state->avail_in)  \
-        __CPROVER_ensures(WF_inflate_len(state))                                                   \
+        __CPROVER_ensures(state->read_in_length <= 64 &&                                           \
+                          (state->read_in_length >= 0 || state->avail_in == 0))                    \
         __CPROVER_ensures(state->avail_in <= __CPROVER_old(state->avail_in) &&                     \
                           state->next_in == __CPROVER_old(state->next_in) +                        \
                                                     (__CPROVER_old(state->avail_in) - state->avail_in)) \
@@ -149,15 +140,244 @@ extern uint64_t g_d;  /* ghost copy of a scalar argument */
         __CPROVER_ensures((int64_t) state->read_in_length ==                                       \
                           (int64_t) __CPROVER_old(state->read_in_length) - (int64_t) g_n +         \
                                   8 * (int64_t) (__CPROVER_old(state->avail_in) - state->avail_in)) \
-        __CPROVER_ensures((__CPROVER_old(STREAM_BITS(state)) >= (int64_t) g_n) ==>                 \
+        __CPROVER_ensures((g_bits0 >= (int64_t) g_n) ==>                 \
                           (state->read_in_length >= 0 &&                                           \
-                           __CPROVER_return_value == LOWBITS(__CPROVER_old(STREAM64(state)), g_n) && \
+                           __CPROVER_return_value == LOWBITS(g_s0, g_n) && \
                            LOWBITS(state->read_in, state->read_in_length) ==                       \
-                                   LOWBITS(SHR64(__CPROVER_old(STREAM64(state)), g_n),             \
+                                   LOWBITS(SHR64(g_s0, g_n),             \
                                            state->read_in_length) &&                               \
                            WF_inflate_garbage(state)))                                             \
-        __CPROVER_ensures((__CPROVER_old(STREAM_BITS(state)) < (int64_t) g_n) ==>                  \
+        __CPROVER_ensures((g_bits0 < (int64_t) g_n) ==>                  \
                           (state->read_in_length < 0 && state->avail_in == 0))
 #endif /* INF_BITS */
+
+/* =============================================================================================
+ * (c) decode_literal_block  -- stored block body (RFC 1951 3.2.4), progress contract (C02/C06/C07)
+ *
+ * Logical input bytes of the block: the B = read_in_length/8 whole bytes buffered in read_in (least
+ * significant first) followed by next_in[0..avail_in).  One call copies exactly
+ *        N = min(type0_block_len, avail_out, B + avail_in)
+ * bytes of it to next_out, advances next_out/avail_out/total_out by N, keeps the residue
+ * type0_block_len - N, takes the input from read_in first, and leaves block_state TYPE0 iff the block is
+ * not finished (NEW_HDR / INPUT_DONE by bfinal otherwise).  Return code: only 0, ISAL_END_INPUT,
+ * ISAL_OUT_OVERFLOW; 0 only when the block is finished; OUT_OVERFLOW only with avail_out'==0 and a
+ * residue; END_INPUT only when no whole input byte is left.
+ *
+ * WF_type0: on entry of the TYPE0 state the accumulator holds whole bytes only, and an empty accumulator
+ * is all zero (both are postconditions of read_header's stored branch and of this function).
+ *
+ * avail_in <= 2^32-9: the code computes `avail_in + bytes` in uint32_t; see the report
+ * (possible defect for avail_in within 8 of 2^32). */
+#define WF_type0(s)                                                                                \
+        (WF_inflate(s) && (s)->read_in_length % 8 == 0 && (s)->type0_block_len >= 0 &&             \
+         (s)->type0_block_len <= 65535 && ((s)->read_in_length != 0 || (s)->read_in == 0))
+#define DLB_LEN __CPROVER_old(state->type0_block_len)
+#define DLB_AO __CPROVER_old(state->avail_out)
+#define DLB_AI __CPROVER_old(state->avail_in)
+#define DLB_B ((uint32_t) (__CPROVER_old(state->read_in_length) / 8))
+#define DLB_N MIN2(MIN2((uint32_t) DLB_LEN, DLB_AO), DLB_B + DLB_AI)
+#if defined(INF_LIT)
+#define C_decode_literal_block                                                                     \
+        __CPROVER_requires(INF_FRESH_STATE(state) && state->avail_in <= 0xfffffff7u)               \
+        __CPROVER_requires(INF_FRESH_IN(state) && INF_FRESH_OUT(state))                            \
+        __CPROVER_requires(WF_type0(state))                                                        \
+        __CPROVER_requires(state->avail_out == 0 || g_q < state->avail_out)                        \
+        __CPROVER_assigns(w_q0, state->next_out, state->avail_out, state->total_out, state->next_in, \
+                          state->avail_in, state->read_in, state->read_in_length,                  \
+                          state->type0_block_len, state->block_state,                              \
+                          __CPROVER_object_upto(state->next_out, state->avail_out))                \
+        /* counters */                                                                             \
+        __CPROVER_ensures(state->next_out == __CPROVER_old(state->next_out) + DLB_N &&             \
+                          state->avail_out == DLB_AO - DLB_N &&                                    \
+                          state->total_out == (uint32_t) (__CPROVER_old(state->total_out) + DLB_N) && \
+                          state->type0_block_len == DLB_LEN - (int32_t) DLB_N)                     \
+        /* input accounting: buffered bytes first */                                               \
+        __CPROVER_ensures(DLB_N >= DLB_B ==>                                                       \
+                          (state->read_in_length == 0 && state->read_in == 0 &&                    \
+                           state->next_in == __CPROVER_old(state->next_in) + (DLB_N - DLB_B) &&    \
+                           state->avail_in == DLB_AI - (DLB_N - DLB_B)))                           \
+        __CPROVER_ensures(DLB_N < DLB_B ==>                                                        \
+                          (state->read_in_length ==                                                \
+                                   __CPROVER_old(state->read_in_length) - 8 * (int32_t) DLB_N &&   \
+                           state->read_in == (__CPROVER_old(state->read_in) >> (8 * DLB_N)) &&     \
+                           state->next_in == __CPROVER_old(state->next_in) &&                      \
+                           state->avail_in == DLB_AI))                                             \
+        /* data: output byte g_p (any position) is logical input byte g_p */                       \
+        __CPROVER_ensures((g_p < DLB_N && g_p < DLB_B) ==>                                         \
+                          __CPROVER_old(state->next_out)[g_p] ==                                   \
+                                  (uint8_t) (__CPROVER_old(state->read_in) >> (8 * g_p)))          \
+        __CPROVER_ensures((g_p < DLB_N && g_p >= DLB_B) ==>                                        \
+                          __CPROVER_old(state->next_out)[g_p] ==                                   \
+                                  __CPROVER_old(state->next_in)[g_p - DLB_B])                      \
+        /* exactly N bytes are written: every output position >= N keeps its value */              \
+        __CPROVER_ensures((g_q >= DLB_N && g_q < DLB_AO) ==>                                       \
+                          __CPROVER_old(state->next_out)[g_q] == w_q0)                             \
+        /* state machine */                                                                        \
+        __CPROVER_ensures(state->block_state ==                                                    \
+                          (DLB_N < (uint32_t) DLB_LEN                                              \
+                                   ? ISAL_BLOCK_TYPE0                                              \
+                                   : (state->bfinal ? ISAL_BLOCK_INPUT_DONE : ISAL_BLOCK_NEW_HDR))) \
+        __CPROVER_ensures(__CPROVER_return_value == 0 ||                                           \
+                          __CPROVER_return_value == ISAL_END_INPUT ||                              \
+                          __CPROVER_return_value == ISAL_OUT_OVERFLOW)                             \
+        __CPROVER_ensures(__CPROVER_return_value == 0 ==>                                          \
+                          (state->type0_block_len == 0 && state->block_state != ISAL_BLOCK_TYPE0)) \
+        __CPROVER_ensures(__CPROVER_return_value == ISAL_OUT_OVERFLOW ==>                          \
+                          (state->avail_out == 0 && state->type0_block_len > 0))                   \
+        __CPROVER_ensures(__CPROVER_return_value == ISAL_END_INPUT ==>                             \
+                          (state->avail_in == 0 && state->read_in_length == 0 &&                   \
+                           state->block_state != ISAL_BLOCK_INPUT_DONE))                           \
+        /* a finished final block is never reported as "needs input" */                            \
+        __CPROVER_ensures(state->block_state == ISAL_BLOCK_INPUT_DONE ==>                          \
+                          __CPROVER_return_value == 0)                                             \
+        __CPROVER_ensures(WF_type0(state))
+#define E_decode_literal_block w_q0 = state->avail_out ? state->next_out[g_q] : 0;
+#endif /* INF_LIT */
+
+/* =============================================================================================
+ * (f) trailer verification (C11, C07): check_gzip_checksum / check_zlib_checksum, finalize_adler32,
+ *     update_checksum
+ *
+ * Logical trailer = the B = read_in_length/8 whole bytes left in read_in (above the read_in_length%8
+ * padding bits of the last deflate byte; least significant first)
+ *                   || tmp_in_buffer[0 .. tmp_in_size)  ||  next_in[0 .. avail_in).
+ * Reachable-state precondition CK_PRE: bytes are parked in tmp_in_buffer only by an earlier, incomplete
+ * call of the same checker, which also empties the whole bytes of read_in; so tmp_in_size > 0 implies
+ * read_in_length < 8, and tmp_in_size < trailer length.  (With both non-empty the code would put the
+ * tmp_in_buffer bytes first; that state is not produced by isal_inflate.)
+ *
+ *   fewer than LEN (8 gzip / 4 zlib) logical bytes:  ISAL_END_INPUT, block_state == ISAL_CHECKSUM_CHECK,
+ *        every logical byte is preserved, in order, in tmp_in_buffer[0 .. tmp_in_size'), avail_in' == 0,
+ *        no whole byte stays in read_in; crc / total_out untouched (frame).
+ *   otherwise:  exactly the missing LEN - B - T bytes are taken from next_in, block_state ==
+ *        ISAL_BLOCK_FINISH, and
+ *        gzip (RFC 1952 2.3.1):  ret == ISAL_DECOMP_OK  <=>  trailer == CRC32 (4 bytes, least significant
+ *                                first) || ISIZE = total_out mod 2^32 (4 bytes, least significant first)
+ *        zlib (RFC 1950 2.2):    ret == ISAL_DECOMP_OK  <=>  trailer == ADLER32, most significant byte first
+ *        else ret == ISAL_INCORRECT_CHECKSUM. */
+#define CK_B(s) ((uint32_t) ((s)->read_in_length / 8))
+#define CK_T(s) ((uint32_t) (s)->tmp_in_size)
+#define CK_A(s) ((uint64_t) CK_B(s) + CK_T(s) + (s)->avail_in)
+#define CK_BYTE(s, i)                                                                              \
+        ((uint64_t) ((i) < CK_B(s)                                                                 \
+                             ? (uint8_t) ((s)->read_in >> ((s)->read_in_length % 8 + 8 * (i)))     \
+                             : ((i) < CK_B(s) + CK_T(s) ? (s)->tmp_in_buffer[(i) - CK_B(s)]        \
+                                                        : (s)->next_in[(i) - CK_B(s) - CK_T(s)])))
+#define CK_TRB(s, i) ((uint64_t) (i) < CK_A(s) ? CK_BYTE(s, i) << (8 * (i)) : 0ULL)
+#define CK_TR4(s) (CK_TRB(s, 0) | CK_TRB(s, 1) | CK_TRB(s, 2) | CK_TRB(s, 3))
+#define CK_TR8(s) (CK_TR4(s) | CK_TRB(s, 4) | CK_TRB(s, 5) | CK_TRB(s, 6) | CK_TRB(s, 7))
+/* the first bytes of tmp_in_buffer as a little-endian word, zero beyond tmp_in_size */
+#define CK_TMPB(s, i) ((i) < CK_T(s) ? ((uint64_t) (s)->tmp_in_buffer[i]) << (8 * (i)) : 0ULL)
+#define CK_TMP8(s)                                                                                 \
+        (CK_TMPB(s, 0) | CK_TMPB(s, 1) | CK_TMPB(s, 2) | CK_TMPB(s, 3) | CK_TMPB(s, 4) |           \
+         CK_TMPB(s, 5) | CK_TMPB(s, 6) | CK_TMPB(s, 7))
+#define CK_PRE(s, LEN)                                                                             \
+        ((s)->read_in_length >= 0 && (s)->read_in_length <= 64 && (s)->tmp_in_size >= 0 &&         \
+         (s)->tmp_in_size < (LEN) && ((s)->tmp_in_size == 0 || (s)->read_in_length < 8))
+#define GT(k) ((uint8_t) (g_tr >> (8 * (k)))) /* logical trailer byte k */
+extern uint64_t g_tr; /* ghost: logical trailer (first 8 / 4 bytes, little-endian word, 0 beyond the end) */
+extern uint64_t g_ta; /* ghost: number of logical trailer bytes available */
+extern uint32_t g_tb, g_tt; /* ghost: B and T at entry */
+
+#if defined(INF_CKSUM)
+#include "stubs_inflate.h"
+/* Tractability note.  check_*_checksum write into state->tmp_in_buffer at offset tmp_in_size
+ * (+ read_in_length/8).  CBMC 6.11 encodes a byte write at a *symbolic* offset into the 87 KB struct
+ * inflate_state by rebuilding the whole struct per written byte and does not finish (hours, > 14 GB), and
+ * dfcc's per-object bookkeeping makes even a path with literal offsets cost ~3 s / 0.4 GB.  Therefore
+ *   (1) the postconditions below are written once, as macros over (RET, old next_in, old avail_in);
+ *   (2) h_check_*_checksum_all (harness/igzip/inflate_cksum.c, no dfcc instrumentation) asserts them on
+ *       every admissible pair (read_in_length, tmp_in_size) given as literal constants -- exhaustive over
+ *       CK_PRE -- with everything else unconstrained, plus an explicit frame (every other scalar field and
+ *       ghost-indexed elements of every array unchanged) and CBMC's pointer/bounds checks;
+ *   (3) the dfcc contract C_check_*_checksum (same macros, plus the assigns clause) is enforced on a
+ *       handful of literal pairs (h_check_*_checksum_c<k>) to have the frame checked by dfcc as well.
+ * `state` is allocated by the harness in all of them (malloc(sizeof *state), contents unconstrained). */
+#define CK_POST_RET(RET)                                                                           \
+        ((RET) == ISAL_DECOMP_OK || (RET) == ISAL_END_INPUT || (RET) == ISAL_INCORRECT_CHECKSUM)
+/* not enough bytes: nothing is lost, nothing is decided */
+#define CK_POST_SHORT(LEN, RET, ONI, OAI)                                                          \
+        (g_ta < (LEN) ==>                                                                          \
+         ((RET) == ISAL_END_INPUT && state->block_state == ISAL_CHECKSUM_CHECK &&                  \
+          state->tmp_in_size == (int16_t) g_ta && CK_TMP8(state) == g_tr && state->avail_in == 0 && \
+          state->next_in == (ONI) + (OAI) && state->read_in_length >= 0 &&                         \
+          state->read_in_length < 8 && CK_PRE(state, LEN)))
+/* enough bytes: decided, exactly the trailer is consumed */
+#define CK_POST_FULL(LEN, RET, ONI, OAI)                                                           \
+        (g_ta >= (LEN) ==>                                                                         \
+         ((RET) != ISAL_END_INPUT && state->block_state == ISAL_BLOCK_FINISH &&                    \
+          state->tmp_in_size == 0 &&                                                               \
+          state->avail_in == (OAI) - ((LEN) - MIN2(g_tb, (LEN)) - g_tt) &&                         \
+          state->next_in == (ONI) + ((LEN) - MIN2(g_tb, (LEN)) - g_tt) &&                          \
+          state->read_in_length >= 0 &&                                                            \
+          (uint32_t) (state->read_in_length / 8) == g_tb - MIN2(g_tb, (LEN))))
+/* RFC 1952 2.3.1: CRC32 then ISIZE, both least significant byte first */
+#define CK_POST_GZ(RET)                                                                            \
+        (g_ta >= 8 ==>                                                                             \
+         (((RET) == ISAL_DECOMP_OK) ==                                                             \
+          (GT(0) == (uint8_t) (state->crc) && GT(1) == (uint8_t) (state->crc >> 8) &&              \
+           GT(2) == (uint8_t) (state->crc >> 16) && GT(3) == (uint8_t) (state->crc >> 24) &&       \
+           GT(4) == (uint8_t) (state->total_out) && GT(5) == (uint8_t) (state->total_out >> 8) &&  \
+           GT(6) == (uint8_t) (state->total_out >> 16) &&                                          \
+           GT(7) == (uint8_t) (state->total_out >> 24))))
+/* RFC 1950 2.2: ADLER32 most significant byte first */
+#define CK_POST_ZL(RET)                                                                            \
+        (g_ta >= 4 ==>                                                                             \
+         (((RET) == ISAL_DECOMP_OK) ==                                                             \
+          (GT(0) == (uint8_t) (state->crc >> 24) && GT(1) == (uint8_t) (state->crc >> 16) &&       \
+           GT(2) == (uint8_t) (state->crc >> 8) && GT(3) == (uint8_t) (state->crc))))
+
+#if !defined(INF_CK_PLAIN)
+#define CK_COMMON(LEN, TRW)                                                                        \
+        __CPROVER_requires(state->avail_in <= 0xfffffff7u && INF_FRESH_IN(state))                  \
+        __CPROVER_requires(CK_PRE(state, LEN))                                                     \
+        __CPROVER_requires(g_tr == TRW(state) && g_ta == CK_A(state) && g_tb == CK_B(state) &&     \
+                           g_tt == CK_T(state))                                                    \
+        __CPROVER_assigns(state->read_in, state->read_in_length, state->tmp_in_size,               \
+                          __CPROVER_object_upto(state->tmp_in_buffer, ISAL_DEF_MAX_HDR_SIZE),      \
+                          state->next_in, state->avail_in, state->block_state)                     \
+        __CPROVER_ensures(CK_POST_RET(__CPROVER_return_value))                                     \
+        __CPROVER_ensures(CK_POST_SHORT(LEN, __CPROVER_return_value,                               \
+                                        __CPROVER_old(state->next_in),                             \
+                                        __CPROVER_old(state->avail_in)))                           \
+        __CPROVER_ensures(CK_POST_FULL(LEN, __CPROVER_return_value,                                \
+                                       __CPROVER_old(state->next_in),                              \
+                                       __CPROVER_old(state->avail_in)))
+
+#define C_check_gzip_checksum CK_COMMON(8, CK_TR8) __CPROVER_ensures(CK_POST_GZ(__CPROVER_return_value))
+#define C_check_zlib_checksum CK_COMMON(4, CK_TR4) __CPROVER_ensures(CK_POST_ZL(__CPROVER_return_value))
+#endif
+
+/* finalize_adler32: the running value is B<<16 | ((A-1) mod 65521) (igzip convention, so that CRC and
+ * Adler share the initial value 0); the final value is B<<16 | A with A reduced. */
+#define C_finalize_adler32                                                                         \
+        __CPROVER_requires(INF_FRESH_STATE(state) && (state->crc & 0xffff) < ADLER_MOD)            \
+        __CPROVER_assigns(state->crc)                                                              \
+        __CPROVER_ensures((state->crc >> 16) == (__CPROVER_old(state->crc) >> 16) &&               \
+                          (state->crc & 0xffff) < ADLER_MOD &&                                     \
+                          ((state->crc & 0xffff) + ADLER_MOD - 1) % ADLER_MOD ==                   \
+                                  (__CPROVER_old(state->crc) & 0xffff))
+
+/* update_checksum: crc_flag selects the routine (include/igzip_lib.h: ISAL_GZIP* -> CRC-32,
+ * ISAL_ZLIB* -> Adler-32, ISAL_DEFLATE -> none); exactly one call, on exactly (running value, start_in,
+ * length); its result becomes the running value. */
+#define UC_IS_GZ(f) ((f) == ISAL_GZIP || (f) == ISAL_GZIP_NO_HDR || (f) == ISAL_GZIP_NO_HDR_VER)
+#define UC_IS_ZL(f) ((f) == ISAL_ZLIB || (f) == ISAL_ZLIB_NO_HDR || (f) == ISAL_ZLIB_NO_HDR_VER)
+#define C_update_checksum                                                                          \
+        __CPROVER_requires(INF_FRESH_STATE(state) && w_crc_calls == 0 && w_ad_calls == 0)          \
+        __CPROVER_assigns(state->crc, w_crc_init, w_crc_len, w_crc_buf, w_crc_calls, w_ad_init,    \
+                          w_ad_len, w_ad_buf, w_ad_calls)                                          \
+        __CPROVER_ensures(UC_IS_GZ(state->crc_flag) ==>                                            \
+                          (w_crc_calls == 1 && w_ad_calls == 0 &&                                  \
+                           w_crc_init == __CPROVER_old(state->crc) && w_crc_buf == start_in &&     \
+                           w_crc_len == length && state->crc == g_crc_ret))                        \
+        __CPROVER_ensures(UC_IS_ZL(state->crc_flag) ==>                                            \
+                          (w_ad_calls == 1 && w_crc_calls == 0 &&                                  \
+                           w_ad_init == __CPROVER_old(state->crc) && w_ad_buf == start_in &&       \
+                           w_ad_len == length && state->crc == g_ad_ret))                          \
+        __CPROVER_ensures((!UC_IS_GZ(state->crc_flag) && !UC_IS_ZL(state->crc_flag)) ==>           \
+                          (w_crc_calls == 0 && w_ad_calls == 0 &&                                  \
+                           state->crc == __CPROVER_old(state->crc)))
+#endif /* INF_CKSUM */
 
 #endif
